@@ -17,7 +17,9 @@ def experiment_frame_spec(draw, purpose):
   colab = draw(st.integers(0, 3)) == 0
   scen = draw(st.sampled_from(['fixed', 'variable'] * 3 + (['ctl_test_only', 'pre_only', 'trt_always_on'] if purpose == 'c07' else ['trt_always_on']))) if purpose in ('c07', 'c18') else None
   min_pre = 8 if purpose == 'c19' else (10 if (purpose == 'c07' and scen == 'variable') else 3)
-  n_pre = draw(st.one_of(st.integers(min_pre, min_pre + 3), st.integers(min_pre, 40)))
+  n_pre = draw(st.one_of(st.integers(min_pre, min_pre + 3), st.integers(min_pre, 40), st.integers(min_pre, 40))
+               if purpose != 'c06' else
+               st.one_of(st.integers(min_pre, min_pre + 3), st.integers(min_pre, 40), st.integers(min_pre, 40), st.integers(85, 130)))
   n_test = draw(st.one_of(st.integers(1, 3), st.integers(1, 20)))
   n_cool = draw(st.integers(1 if purpose == 'c18' else 0, 10))
   want_un = purpose in ('c06', 'c18') and draw(st.booleans())
